@@ -31,7 +31,7 @@ DELTAS = [
     dict(in_math_mode=True, math_mode_delimiter='\\['),
     dict(in_math_mode=True, math_mode_delimiter=None),
     dict(in_math_mode=False, math_mode_delimiter=None),
-    dict(in_math_mode=True),
+    dict(in_math_mode=True), dict(in_math_mode=False),
     dict(math_mode_delimiter='$'),
     dict(latex_group_delimiters=G2),
     dict(latex_group_delimiters=G3),
